@@ -588,8 +588,10 @@ def rule_e_enum(prog: Program, col: Collector) -> None:
     col.check(ok, ref.where(), ref.short, "get_all_coalitions(n) = arange(2**n) (ids in ascending order)", construct="all-ids", necessity=NEC)
     ref = prog.func("coalitions.all_coalitions")
     rv = list(fterms(prog, ref).of_kind("return"))
-    ok = len(rv) == 1 and is_call_to(rv[0].value, "map") and rv[0].value[2][0] == ("global", COAL) and is_call_to(rv[0].value[2][1], "range") and \
-        rv[0].value[2][1][2][0][0] == "bin" and rv[0].value[2][1][2][0][1] in ("**", "<<")
+    from .common import comp_parts
+    cp0 = comp_parts(rv[0].value) if len(rv) == 1 else None
+    ok = cp0 is not None and cp0[0] == ("call", ("global", COAL), (cp0[1],), ()) and not cp0[3] and is_call_to(cp0[2], "range") and len(cp0[2][2]) == 1 and \
+        cp0[2][2][0][0] == "bin" and cp0[2][2][0][1] == "**" and cp0[2][2][0][2] == ("const", 2)
     col.check(ok, ref.where(), ref.short, "all_coalitions = Coalition(i) for i in range(2**n) (id order = table row order)", construct="all-obj", necessity=NEC)
     # size / players in id representation
     for fname in ("coalition_ids.get_size", "coalition_ids.players"):
@@ -601,7 +603,7 @@ def rule_e_enum(prog: Program, col: Collector) -> None:
         member = ("cmp", "!=", ("bin", "&", bits, cp), ("const", 0))
         ok = len(rv) == 1 and has_subterm(rv[0].value, member)
         if fname.endswith("get_size"):
-            ok = ok and rv[0].value == ("call", ("attr", member, "sum"), (), ())
+            ok = ok and rv[0].value == ("call", ("global", "numpy.sum"), (member,), ())        # x.sum() and np.sum(x) are one term
         col.check(ok, ref.where(), ref.short, f"{fname.rsplit('.', 1)[1]}: membership mask (2**arange(n) & c) != 0", construct=fname.rsplit(".", 1)[1], necessity=NEC)
 
 
@@ -693,5 +695,5 @@ def rule_k1_k2(prog: Program, col: Collector) -> None:
     col.check(okw, ref.where(), ref.short, "witness returned iff (v(S+i) - v(S)) > (v(T+i) - v(T)) + tolerance", construct="smod-compare", necessity="supermodularity is v(S+i) - v(S) <= v(T+i) - v(T) for S within T: the witness must be returned exactly when this fails by more than the tolerance")
     loops = [e for e in ft.of_kind("loop") if e.iter is not None]
     okl = any(is_call_to(e.iter, P + "coalitions.all_coalitions") for e in loops) and \
-        any(is_call_to(e.iter, "filter") and any(is_call_to(s, P + "coalitions.get_sub_coalitions") for s in subterms(e.iter)) for e in loops)
+        any(e.iter[0] == "comp" and len(e.iter[3]) == 1 and e.iter[3][0][2] and any(is_call_to(s, P + "coalitions.get_sub_coalitions") for s in subterms(e.iter[3][0][1])) for e in loops)
     col.check(okl, ref.where(), ref.short, "T over all coalitions, S over the sub-coalitions of T except T itself", construct="smod-loops", necessity="the definition quantifies over all T and all proper sub-coalitions S of T")
